@@ -280,6 +280,13 @@ def run_cli(argv):
     return status, stream.getvalue()
 
 
+def _plain(value):
+    """Exact decimal expansion of a float without an exponent (the bounds grammar has none)."""
+    import decimal
+    text = format(decimal.Decimal(float(value)), "f")
+    return text if text not in ("-0", "-0.0") else "0"
+
+
 def same_dataset(path_a, path_b):
     with xarray.open_dataset(path_a) as a, xarray.open_dataset(path_b) as b:
         a.load()
@@ -379,7 +386,7 @@ def check_command(case, ctx):
                 how = "geojson"      # these cannot be written as four numbers
             if how == "bounds" or geom.geom_type not in ("Polygon", "MultiPolygon", "Point", "LineString"):
                 minx, miny, maxx, maxy = geom.bounds
-                arg = f"{minx!r},{miny!r}, {maxx!r} ,{maxy!r}"
+                arg = f"{_plain(minx)},{_plain(miny)}, {_plain(maxx)} ,{_plain(maxy)}"
                 geom = box(minx, miny, maxx, maxy)
                 how = "bounds"
             elif how == "geojson":
